@@ -969,6 +969,21 @@ def job_simu(cfg):
             step(f, amps[0]); f.Save_Iter()
             step(f, amps[2]); f.Save_Iter()
             pairs.append((state_of(s, 3), state_of(f, 1), "a step after Set_Iter(0); Save_Iter() = the same step on a simulation that never went further"))
+        elif cfg["seq"] == "restore-solve":
+            # Set_Iter(i) directly followed by a solve (no Save_Iter in between): the solve starts from the restored committed state, does not
+            # write it, and equals the same step on a simulation that never went further
+            s = mk()
+            step(s, amps[0]); s.Save_Iter()
+            step(s, amps[1]); s.Save_Iter()
+            s.Set_Iter(0)
+            before = state_of(s, 0).copy()
+            step(s, amps[2])
+            pairs.append((state_of(s, 0), before, "a solve right after Set_Iter(0) does not change the stored iteration 0"))
+            s.Save_Iter()
+            f = mk()
+            step(f, amps[0]); f.Save_Iter()
+            step(f, amps[2]); f.Save_Iter()
+            pairs.append((state_of(s, 2), state_of(f, 1), "a step solved right after Set_Iter(0) = the same step on a simulation that never went further"))
         else:  # unsaved solve
             s = mk()
             step(s, amps[0]); s.Save_Iter()
@@ -1193,7 +1208,7 @@ def main():
     for surf, hard, kin, nbr, rate in jac:
         for law_ in (["iso"] if tier == "quick" else ["iso", "ti"]):
             configs.append({"kind": "jacobian", "law": law_, "surface": surf, "hardening": hard, "kinematic": kin, "branches": nbr, "rate": rate})
-    for seq in ("restore-save", "unsaved-solve"):
+    for seq in ("restore-save", "unsaved-solve", "restore-solve"):
         for mode in (["pstrain", "pstress"] if tier == "quick" else ["pstrain", "pstress", "3D"]):
             configs.append({"kind": "simu", "mode": mode, "seq": seq})
     probes = [("vm", "linear", None, "auto"), ("vm", "linear", "af", "auto"), ("hill", "linear", None, "auto"), ("dp", "linear", None, "newton")]
